@@ -705,6 +705,7 @@ class FakeModule(object):
                 try:
                     code = self._last_code.decoder.decode(data, frequency)
                     if code != self._last_code:
+                        code.bind_released_callback(self.__reset_last_code)
                         self._last_code = code
 
                     self._last_code.repeat_timer.start(self._timer)
@@ -733,6 +734,7 @@ class FakeModule(object):
                 try:
                     code = self._last_decoder.decode(data, frequency)
                     if code != self._last_code:
+                        code.bind_released_callback(self.__reset_last_code)
                         self._last_code = code
 
                     self._last_code.repeat_timer.start(self._timer)
@@ -743,7 +745,7 @@ class FakeModule(object):
                             self._last_code
                         )
 
-                    return True
+                    return code
 
                 except DecodeError:
                     pass
